@@ -138,6 +138,13 @@ static inline void fill_random(rng_t *r, uint8_t *p, size_t n) { fill_class(r, p
 /* ---------------------------------------------------------------- output */
 
 static char g_case[1024] = "{}";      /* descriptor of the case now running */
+/* Where the guard-buffer arenas are mapped (uninstrumented builds; rotates with the batch number, "--addr N" in replay):
+ * 0 wherever the kernel puts them, 1 below 2 GiB (upper half of every pointer zero), 2 straddling a multiple of 4 GiB,
+ * 3 straddling k * 4 GiB + 2 GiB (bit 31 of the low word changes inside the buffer).  In classes 2 and 3 the boundary is
+ * the start of the second data page, which every other mid-placed buffer is laid across (in every class mid-placed
+ * buffers alternate between the start of the arena and straddling that page boundary). */
+static int g_addr_class = 0, g_arena_no = 0;
+static unsigned long long g_addr_ok = 0, g_addr_fallback = 0;
 
 static inline void set_case(const char *fmt, ...)
 {
@@ -145,6 +152,10 @@ static inline void set_case(const char *fmt, ...)
     va_start(ap, fmt);
     vsnprintf(g_case, sizeof g_case, fmt, ap);
     va_end(ap);
+    if (g_addr_class) {      /* part of the case: where the buffers live (see gb_init) */
+        size_t l = strlen(g_case);
+        if (l && g_case[l - 1] == '}' && l + 16 < sizeof g_case) snprintf(g_case + l - 1, sizeof g_case - l + 1, ",\"addr\":%d}", g_addr_class);
+    }
 }
 
 static inline void hexs(char *dst, const uint8_t *p, size_t n, size_t maxn)
@@ -272,6 +283,12 @@ static inline void install_crash_handlers(void)
 
 /* ---------------------------------------------------------------- guard-page arena */
 
+#ifndef MAP_FIXED_NOREPLACE
+#define MAP_FIXED_NOREPLACE 0x100000
+#endif
+#ifndef MAP_32BIT
+#define MAP_32BIT 0
+#endif
 #define PAGE 4096u
 enum { PL_END = 0, PL_START = 1, PL_MID = 2 };
 #define CANARY 64u
@@ -285,14 +302,25 @@ typedef struct {
     int      place;
     int      ro;
     uint8_t  can_seed;
+    int      toggle;
     const char *role;
 } gbuf_t;
 
 static inline void gb_init(gbuf_t *g, const char *role, size_t maxlen)
 {
     size_t pages = (maxlen + 2 * CANARY + 16 + PAGE - 1) / PAGE + 1;
-    g->map = (uint8_t *)mmap(NULL, (pages + 2) * PAGE, PROT_NONE, MAP_PRIVATE | MAP_ANONYMOUS, -1, 0);
+    g->map = (uint8_t *)MAP_FAILED;
+    if (g_addr_class == 1) g->map = (uint8_t *)mmap(NULL, (pages + 2) * PAGE, PROT_NONE, MAP_PRIVATE | MAP_ANONYMOUS | MAP_32BIT, -1, 0);
+    else if (g_addr_class >= 2) {
+        uintptr_t b = ((uintptr_t)(0x5A00u + 16u * (unsigned)(g_arena_no++ & 0xFF)) << 32) + (g_addr_class == 3 ? 0x80000000u : 0u);
+        g->map = (uint8_t *)mmap((void *)(b - 2 * PAGE), (pages + 2) * PAGE, PROT_NONE, MAP_PRIVATE | MAP_ANONYMOUS | MAP_FIXED_NOREPLACE, -1, 0);
+        if (g->map != (uint8_t *)MAP_FAILED && g->map != (uint8_t *)(b - 2 * PAGE)) { munmap(g->map, (pages + 2) * PAGE); g->map = (uint8_t *)MAP_FAILED; }   /* old kernels treat the flag as a hint */
+    }
+    if (g_addr_class == 1 && g->map != (uint8_t *)MAP_FAILED && ((uintptr_t)g->map >> 32) != 0) { munmap(g->map, (pages + 2) * PAGE); g->map = (uint8_t *)MAP_FAILED; }
+    if (g_addr_class) { if (g->map != (uint8_t *)MAP_FAILED) ++g_addr_ok; else ++g_addr_fallback; }
+    if (g->map == (uint8_t *)MAP_FAILED) g->map = (uint8_t *)mmap(NULL, (pages + 2) * PAGE, PROT_NONE, MAP_PRIVATE | MAP_ANONYMOUS, -1, 0);
     if (g->map == MAP_FAILED) { perror("mmap"); exit(2); }
+    g->toggle = 0;
     g->data_pages = pages;
     g->data = g->map + PAGE;
     if (mprotect(g->data, pages * PAGE, PROT_READ | PROT_WRITE)) { perror("mprotect"); exit(2); }
@@ -333,7 +361,11 @@ static inline uint8_t *gb_place(gbuf_t *g, size_t len, int place, unsigned off, 
     } else if (place == PL_START) {
         g->ptr = g->data;
     } else {
-        uint8_t *p = g->data + CANARY + 8 + (off & 7);
+        uint8_t *p = g->data + CANARY + 8 + (off & 7), *b = g->data + PAGE, *q;
+        /* every other time: laid across the boundary between the first two data pages, same alignment class */
+        g->toggle ^= 1;
+        q = b - 8 * ((len / 2) / 8 + 1) + (off & 7);
+        if (g->toggle && g->data_pages >= 2 && len >= 2 && q >= g->data + CANARY && q < b && q + len > b && q + len + CANARY <= end) p = q;
         g->can_seed = junk;
         memset(p - CANARY, (int)(0xA5 ^ junk), CANARY);
         memset(p + len, (int)(0x5A ^ junk), CANARY);
@@ -406,7 +438,7 @@ typedef struct {
 static inline args_t parse_args(int argc, char **argv)
 {
     args_t a;
-    int i;
+    int i, addr = -1;
     memset(&a, 0, sizeof a);
     a.seed = 1; a.nbatches = 1; a.only = -1; a.mode = "";
     for (i = 1; i < argc; ++i) {
@@ -420,9 +452,15 @@ static inline args_t parse_args(int argc, char **argv)
         else if (!strcmp(s, "--p1")) { a.p1 = atol(v); ++i; }
         else if (!strcmp(s, "--p2")) { a.p2 = atol(v); ++i; }
         else if (!strcmp(s, "--p3")) { a.p3 = atol(v); ++i; }
+        else if (!strcmp(s, "--addr")) { addr = atoi(v); ++i; }
         else { fprintf(stderr, "unknown argument %s\n", s); exit(2); }
     }
     if (a.nbatches < 1) a.nbatches = 1;
+#if !defined(VERIF_ASAN) && !defined(VERIF_MSAN) && !defined(VERIF_TSAN)
+    g_addr_class = addr >= 0 ? (addr & 3) : (a.only >= 0 ? 0 : (int)(a.batch & 3));
+#else
+    (void)addr;      /* the sanitizers own the address space layout */
+#endif
     return a;
 }
 /* Does this process own case index i? */
@@ -435,6 +473,8 @@ static inline void finish(void)
 {
     cls_emit();
     emit_stat("violations_emitted", g_nviol);
+    if (g_addr_ok) emit_stat("arenas_mapped_in_requested_address_class", g_addr_ok);
+    if (g_addr_fallback) emit_stat("arenas_address_class_not_available", g_addr_fallback);
     printf("DONE\n");
     fflush(stdout);
 }
